@@ -2002,6 +2002,21 @@ class PseudoNetCDFFile(PseudoNetCDFSelfReg, object):
         for dk, dv in self.dimensions.items():
             newdimlens[dk] = len(dv)
 
+        # integer selections keep their axis with length 1; apply them as
+        # one-element slices so that numpy does not reorder axes when an
+        # integer and an index list are combined
+        for dk, dv in list(dimslices.items()):
+            if np.isscalar(dv) and dk in self.dimensions:
+                dlen = len(self.dimensions[dk])
+                didx = int(dv)
+                if didx < 0:
+                    didx += dlen
+                if didx < 0 or didx >= dlen:
+                    raise IndexError(
+                        'index %s is out of bounds for dimension %s with size %d'
+                        % (dv, dk, dlen))
+                dimslices[dk] = slice(didx, didx + 1)
+
         isarray = {dk: not np.isscalar(dv) and not isinstance(
             dv, slice) for dk, dv in dimslices.items()}
         anyisarray = np.sum(list(isarray.values())) > 1
